@@ -9,7 +9,7 @@ descriptor read returned with the two-step json_tokener_parse_ex of the same byt
 the terminating NUL when the tokener answered continue without a value;
 tokener of the configured depth) printed in the same line.  Call counts, the bytes and
 the depth handed to the parser are compared with the extracted Coq model (FdModel.v)."""
-import os, sys, shutil, tempfile
+import itertools, os, sys, shutil, tempfile
 sys.path.insert(0, os.path.join(os.path.dirname(os.path.abspath(__file__)), "..", "lib"))
 import jsongen, jvtext
 
@@ -32,6 +32,9 @@ RULE = ("documents: jsongen valid texts, byte-mutated texts, texts padded to 409
         "failure reports (N): from_file / to_file_ext / to_file on file names with printf metacharacters (%d %s %n %x %% lone % %5$s %*d ...), "
         "names of 150..5000 bytes around the 256-byte message buffer, plain names x open() failing (ENOENT EACCES ENOTDIR EMFILE ENAMETOOLONG ...) "
         "or the first read()/write() failing; "
+        "small-scope block (enumerated): every read schedule of <= 5 (thorough 6) transfers over {0,1,2,all,EIO,EINTR} x 7 tiny texts/depths, "
+        "every write schedule of <= 5 (6) over {1,2,all,EIO,EINTR} x 5 tiny trees incl. the NULL object, positioned descriptors at every offset x 4 modes, "
+        "from_file/to_file with open() ok/failing, every file-system history of <= 4 (5) steps over 8 steps x 2 initial states, every file name of <= 4 (5) chars over '%sdn.'; "
         "non-trivial = at least two data-carrying calls or an injected error reached or a successful file write or a failure report; distinct by script line")
 TRUSTED = ["Coq 8.16.1 kernel (coqc), no axioms (Print Assumptions: closed under the global context)",
            "extraction (ExtrOcamlBasic only) + ocaml/drv_fd.ml glue (pads the schedule with whole-request entries)",
@@ -303,7 +306,7 @@ def gen(rng, tier):
                 out.append(("fd F R %s %s %s" % (ok, hx(t), sc), {"kind": "FR-" + ("open" if ok == "1" else "noopen") + "/" + sk}))
     # ---- writes
     trees = gen_trees(rng, tier)
-    sers = serialize_all([(t, fl) for (t, fl, _) in trees])
+    sers = serialize_all([(t, fl) for (t, fl, _) in trees] + [(t, 0) for t in SMALL_TREES])
     for (t, fl, kind) in trees:
         ser = sers.get((t, fl))
         if ser is None:
@@ -327,6 +330,92 @@ def gen(rng, tier):
     out += gen_histories(rng, tier, [(t, fl, sers[(t, fl)]) for (t, fl, _) in trees if (t, fl) in sers])
     out += gen_names(rng, tier)
     out += gen_descriptors(rng, tier, docs, [(t, fl, sers[(t, fl)]) for (t, fl, _) in trees if (t, fl) in sers])
+    out += gen_small_scope(tier, sers)
+    return out
+
+
+# ---------------------------------------------------------------- small-scope exhaustive block
+# transfer alphabet: each symbol selects a different branch of the loops — nothing moved (read: the
+# end-of-file exit; not offered to writes: a 0-byte write() is the documented spin, the stub would
+# go on where the model says Spin), one byte, a short count, everything asked for, a failing call
+# with a plain and with the "interrupted" errno
+READ_SYMS = [0, 1, 2, 1000000, "E", "E:EINTR"]
+WRITE_SYMS = [1, 2, 1000000, "E", "E:EINTR"]
+# texts: empty; a literal the end of the data completes (second tokener call); complete containers
+# within / beyond depth 1; an unfinished literal (second call, then error); a text with trailing byte
+SMALL_READS = [(b"", "-1"), (b"7", "-1"), (b"[]", "1"), (b"[1]", "-1"), (b"[1]", "1"), (b"tru", "-1"), (b'"a"\n', "fd")]
+# trees: serializations of 1, 2, 4, 5 bytes and the refused NULL object
+SMALL_TREES = ["i7", "[]", "t", "[i1,i2]", "n"]
+
+
+def seqs(alphabet, upto):
+    for n in range(upto + 1):
+        for s in itertools.product(alphabet, repeat=n):
+            yield list(s)
+
+
+def gen_small_scope(tier, sers):
+    """every transfer schedule up to a bound over the alphabets above, against tiny texts / trees,
+    through every entry point; every history of file operations up to a bound; every short file
+    name over the printf alphabet.  Enumerated, not sampled."""
+    deep = tier != "quick"
+    out = []
+
+    def add(line, sub):
+        out.append((line, {"kind": "small-scope/" + sub}))
+    nr, nw = (6, 6) if deep else (5, 5)
+    # from_fd_ex / from_fd: every schedule of <= nr transfers
+    for (t, d) in SMALL_READS:
+        for sc in seqs(READ_SYMS, nr):
+            add("fd R %s %s %s" % (hx(t), d, sched_str(sc)), "R")
+    # a positioned descriptor: every offset of a 5-byte file x every schedule of <= nr-1 transfers x every mode
+    for off in range(6):
+        for mode in "rbaw":
+            for sc in seqs(READ_SYMS, nr - 1 if mode == "r" else nr - 2):
+                add("fd DR %s %s %d -1 %s" % (mode, hx(b"#\n[1]"), off, sched_str(sc)), "DR")
+    # from_file: open() succeeding / failing x every schedule of <= nr-1 transfers
+    for ok in ("1", "0", "EINTR"):
+        for sc in seqs(READ_SYMS, nr - 1):
+            add("fd F R %s %s %s" % (ok, hx(b"[1]"), sched_str(sc)), "FR")
+    # to_fd: every schedule of <= nw transfers x every small tree
+    for t in SMALL_TREES:
+        ser = sers.get((t, 0))
+        if ser is None:
+            continue
+        for sc in seqs(WRITE_SYMS, nw):
+            add("fd W %s 0 %s %s" % (t, sched_str(sc), ser), "W")
+    ser_t = sers.get(("t", 0))
+    if ser_t is not None:
+        # a positioned descriptor for writing: empty / 6-byte file x offsets x modes x schedules of <= nw-1
+        for old in (b"", b"abcdef"):
+            for off in sorted(set([0, len(old) // 2, len(old)])):
+                for mode in "wbar":
+                    for sc in seqs(WRITE_SYMS, nw - 1 if mode == "w" else nw - 2):
+                        add("fd DW %s %s %d t 0 %s %s" % (mode, hx(old), off, sched_str(sc), ser_t), "DW")
+        # to_file_ext / to_file: open() succeeding / failing x every schedule of <= nw-1
+        for ok in ("1", "0", "EACCES"):
+            for which in "Ww":
+                for sc in seqs(WRITE_SYMS, nw - 1):
+                    add("fd F %s %s t 0 %s %s" % (which, ok, sched_str(sc), ser_t), "FW")
+    # file-system histories: every sequence of <= 3 (4) steps over writes of a short and a longer
+    # serialization to two paths (both entry points), reads of both paths; from an empty file system
+    # and from one where path a holds a longer file
+    ser_l = sers.get(("[i1,i2]", 0))
+    if ser_t is not None and ser_l is not None:
+        steps = ["w/a/t/0/-/" + ser_t, "w/a/[i1,i2]/0/-/" + ser_l, "v/b/t/0/-/" + ser_t, "w/a/[i1,i2]/0/2,E:ENOSPC/" + ser_l,
+                 "w/a/n/0/-/6e756c6c", "r/a/-", "r/b/1*9", "r/a/1,E"]
+        for init in ("-", "a=" + hx(b'{"old":"xxxxxxxx"}')):
+            for h in seqs(steps, 5 if deep else 4):
+                if h:
+                    add("fd P %s %s" % (init, ";".join(h)), "P")
+    # failure reports: every file name of <= 3 characters over a printf alphabet, every entry point,
+    # open() failing / the first transfer failing
+    for n in range(1, 5 if not deep else 6):
+        for name in itertools.product(b"%sdn.", repeat=n):
+            for kind in "rwv":
+                add("fd N %s o ENOENT %s" % (kind, hx(bytes(name))), "N")
+                if n <= 3 or deep:
+                    add("fd N %s x EIO %s" % (kind, hx(bytes(name))), "N")
     return out
 
 
